@@ -47,8 +47,30 @@ def recipes():
   }
 
 
-RMETA = {"RA": (True, True), "RB": (True, False), "RC": (False, False)}     # (needs calibration, writes statistics)
-STATS_OF = {"RA": ["FC", "TANH", "RESHAPE", "ADD", "IO"], "RB": ["FC", "ADD"], "RC": []}
+# recipe ids the store can hold (RBfc = what is left of RB when its ADD rule is refused under the restricted policy)
+NEEDS_CAL = {"RA": True, "RB": True, "RBfc": True, "RC": False}
+POLICIES = ["P0", "P1"]      # P0 = the default policy; P1 = static a8w8 only for FULLY_CONNECTED / INPUT / OUTPUT (+ dynamic FC)
+LOAD_OUTCOME = {("RA", "P0"): ("ok", "RA"), ("RA", "P1"): ("ok", "RA"), ("RB", "P0"): ("ok", "RB"), ("RB", "P1"): ("raise", "RBfc"),
+                ("RC", "P0"): ("ok", "RC"), ("RC", "P1"): ("ok", "RC")}
+STATS_OF = {("RA", "P0"): ["FC", "TANH", "RESHAPE", "ADD", "IO"], ("RA", "P1"): ["FC", "IO"], ("RB", "P0"): ["FC", "ADD"], ("RB", "P1"): ["FC"],
+            ("RBfc", "P0"): ["FC"], ("RBfc", "P1"): ["FC"], ("RC", "P0"): [], ("RC", "P1"): []}
+WRITES = {("RA", "P0"): True}
+
+
+def policy_files(write=False):
+  """P0: the library's default policy; P1: static int8 only for FULLY_CONNECTED and the model I/O, dynamic int8 for FULLY_CONNECTED."""
+  from ai_edge_quantizer import default_policy
+  d = os.path.join(tlc.WORK, "policies")
+  p0, p1f = os.path.join(d, "P0.json"), os.path.join(d, "P1.json")
+  if not write:
+    return {"P0": p0, "P1": p1f}
+  os.makedirs(d, exist_ok=True)
+  open(p0, "w").write(default_policy.DEFAULT_JSON_POLICY)
+  full = json.loads(default_policy.DEFAULT_JSON_POLICY)
+  p1 = {"configs": {k: full["configs"][k] for k in ("static_wi8_ai8", "dynamic_wi8_afp32")},
+        "ops_per_config": {"static_wi8_ai8": ["FULLY_CONNECTED", "INPUT", "OUTPUT"], "dynamic_wi8_afp32": ["FULLY_CONNECTED"]}}
+  json.dump(p1, open(p1f, "w"))
+  return {"P0": p0, "P1": p1f}
 
 
 def deep_equal(a, b):
@@ -78,9 +100,18 @@ def _winit():
   alog.set_verbosity(alog.ERROR)
 
 
-def fresh_quantize(model, recipe, cal):
+def fresh_quantize(model, recipe, cal, pol=None, current=None):
+  """Bytes of a FRESH Quantizer given equal arguments under the policy currently in force. (The rule list is installed
+  under the default policy, which accepts every rule of these recipes, then the current policy is restored: a store that
+  was filled before a policy change cannot be re-created by loading under the new policy.)"""
   from ai_edge_quantizer import quantizer
-  q = quantizer.Quantizer(bytes(model), copy.deepcopy(recipe))
+  if pol is not None:
+    quantizer.Quantizer(bytes(model)).load_config_policy(pol["P0"])
+  try:
+    q = quantizer.Quantizer(bytes(model), copy.deepcopy(recipe))
+  finally:
+    if pol is not None:
+      quantizer.Quantizer(bytes(model)).load_config_policy(pol[current])
   return bytes(q.quantize(copy.deepcopy(cal)).quantized_model)
 
 
@@ -94,6 +125,18 @@ def _replay(item):
   problems = []
   nq = 0
   hist = trans["hist"]
+  pol = policy_files()
+  quantizer.Quantizer(world["model"]).load_config_policy(pol["P0"])      # every history starts under the default policy
+  try:
+    return _replay_steps(trans, world, snaps, qs, problems, hist, pol)
+  finally:
+    quantizer.Quantizer(world["model"]).load_config_policy(pol["P0"])
+
+
+def _replay_steps(trans, world, snaps, qs, problems, hist, pol):
+  from ai_edge_quantizer import quantizer
+  nq = 0
+  cur_pol = ["P0"]
   for step, act in enumerate(hist):
     kind, qi = act[0], act[1]
     if qi not in qs:
@@ -102,7 +145,13 @@ def _replay(item):
     got = "ok"
     try:
       if kind == "load":
-        q.load_quantization_recipe(world["recipes"][act[2]])
+        try:
+          q.load_quantization_recipe(world["recipes"][act[2]])
+        except ValueError:
+          got = "raise:refused"
+      elif kind == "policy":
+        q.load_config_policy(pol[act[2]])
+        cur_pol[0] = act[2]
       elif kind == "calibrate":
         prev = world["cals"][act[3] - 1] if act[3] else None
         if act[3] and act[3] > len(world["cals"]):
@@ -118,11 +167,11 @@ def _replay(item):
         arg_now = copy.deepcopy(cal)
         out = bytes(q.quantize(cal).quantized_model)
         nq += 1
-        ref = fresh_quantize(world["model"], q.get_quantization_recipe(), arg_now)
+        ref = fresh_quantize(world["model"], q.get_quantization_recipe(), arg_now, pol, cur_pol[0])
         if out != ref:
           problems.append(("history-dependence", "step %d %s: bytes differ from a fresh Quantizer given equal arguments" % (step + 1, act)))
         if act[2]:
-          ref2 = fresh_quantize(world["model"], q.get_quantization_recipe(), snaps["cals"][act[2] - 1])
+          ref2 = fresh_quantize(world["model"], q.get_quantization_recipe(), snaps["cals"][act[2] - 1], pol, cur_pol[0])
           if out != ref2:
             problems.append(("history-dependence", "step %d %s: bytes differ from quantizing the calibration result as it was returned" % (step + 1, act)))
       elif kind == "validate":
@@ -187,10 +236,13 @@ def main():
   fixes = ["qsvcopy"]
   maxlen = 4 if args.tier == "quick" else 5
   q = lambda s: '"%s"' % s
-  consts = dict(NQ="2", Recipes=tlc.tla_str_set(sorted(RMETA)), Datasets=tlc.tla_str_set(["D1", "D2"]), MaxLen=str(maxlen), MaxCals="2",
-                NeedsCal="(" + " @@ ".join("%s :> %s" % (q(r), tlc.tla_bool(m[0])) for r, m in RMETA.items()) + ")",
-                WritesStats="(" + " @@ ".join("%s :> %s" % (q(r), tlc.tla_bool(m[1])) for r, m in RMETA.items()) + ")",
-                StatsOf="(" + " @@ ".join("%s :> %s" % (q(r), tlc.tla_str_set(v)) for r, v in STATS_OF.items()) + ")",
+  pair = lambda k: "<<%s, %s>>" % (q(k[0]), q(k[1]))
+  consts = dict(NQ="2", Recipes=tlc.tla_str_set(["RA", "RB", "RC"]), Policies=tlc.tla_str_set(POLICIES), Datasets=tlc.tla_str_set(["D1", "D2"]),
+                MaxLen=str(maxlen), MaxCals="2",
+                LoadOutcome="(" + " @@ ".join("%s :> <<%s, %s>>" % (pair(k), q(v[0]), q(v[1])) for k, v in LOAD_OUTCOME.items()) + ")",
+                NeedsCal="(" + " @@ ".join("%s :> %s" % (q(r), tlc.tla_bool(v)) for r, v in NEEDS_CAL.items()) + ")",
+                WritesStats="(" + " @@ ".join("%s :> %s" % (pair(k), tlc.tla_bool(WRITES.get(k, False))) for k in STATS_OF) + ")",
+                StatsOf="(" + " @@ ".join("%s :> %s" % (pair(k), tlc.tla_str_set(v)) for k, v in STATS_OF.items()) + ")",
                 Fixes=tlc.tla_str_set(fixes))
   r = tlc.run("C14_api", "Api", consts, invariants=["ArgsUntouched", "OutputIsFunction"], constraints=["EmitH"], view="View", workers=16, timeout=3600)
   if r.error or r.rc not in (0, 12):
@@ -206,6 +258,7 @@ def main():
         trans[json.dumps(t["hist"])] = t
     except Exception:  # pylint: disable=broad-except
       pass
+  policy_files(write=True)       # written once, read by the worker processes
   keys = common.sample_keep(sorted(trans), 700 if args.tier == "quick" else 12000, args.seed)
   items = [(trans[k], args.seed, "bytes" if i % 3 else "bytearray") for i, k in enumerate(keys)]
   t0 = time.time()
@@ -225,7 +278,7 @@ def main():
       "states": r.distinct, "transitions": r.generated, "traces_validated_against_impl": len(results), "transitions_emitted": len(trans),
       "quantize_calls_compared_with_fresh_quantizer": nq, "fresh_process_runs": nproc, "max_history": maxlen,
       "evaluations": len(results), "distinct_nontrivial": sum(1 for o in results if o["nq"] > 0),
-      "rule": "history = sequence over {load R (3 recipes), calibrate(D, previous result), quantize(result), validate} on 2 Quantizers sharing "
+      "rule": "history = sequence over {load R (3 recipes), load_config_policy (2 policies, process-global), calibrate(D, previous result), quantize(result), validate} on 2 Quantizers sharing "
               "<= 2 calibration results; every (reachable state, action) transition emitted once by TLC; non-trivial = contains a quantize() that returns",
       "samples": [o["hist"] for o in results[:3]], "replay_wall_s": round(time.time() - t0, 1), "exhaustive": args.tier == "thorough",
   })
